@@ -435,19 +435,26 @@ PROPS = {
     },
     "C19": {
         "runner": "Run19",
-        "theorems": ["C19_negated_ranges_are_the_complement", "C19_negated_ranges_inside_vocabulary"],
+        "theorems": ["C19_negated_ranges_are_the_complement", "C19_negated_ranges_inside_vocabulary",
+                     "C19_complement_never_matches_marker", "C19_complement_on_text", "C19_unguarded_complement_refuted"],
         "rule": "vocabularies whose ordinary tokens spell pieces and whole names of special tokens; grammars = sequences of literal "
                 "text (also text spelling special names) and token references <name>, <[id]>, <[a-b,...]>, <[^...]>, <[*]>; at every "
                 "text position (also inside the text) the mask must contain no special and no bare-marker token; at every reference "
                 "the mask must be exactly the denoted set, and a denoted token must be accepted; tokenize_bytes of text spelling "
-                "special names yields ordinary tokens only and decodes back; tokenize_bytes_marker and negated ranges compared with the model",
+                "special names yields ordinary tokens only and decodes back; tokenize_bytes_marker and negated ranges compared with the model; "
+                "text positions written with ~ / & (complements of literals, classes, nested complements) must offer no special token; "
+                "canonical tokenizers: forced text followed by a choice between text and a token reference, every offered token must be "
+                "committable",
         "trusted_base": ["modelled, not verified: grammar_builder.rs negated_token_ranges (coq/Special.v), tokenv.rs "
                          "tokenize_bytes_marker (coq/TokParser.v); the engine's numeric-token commit path is not modelled "
                          "(implementation-only predicates cover it)"],
-        "assumptions": ["lexemes of text grammars cannot match the marker byte (UTF-8 mode of the external regex parser)"],
-        "level_text": "Theorem: a negated token-range reference denotes exactly the complement within the vocabulary, well formed. "
-                      "Everything else of the property is evaluated on the implementation at every text / reference position.",
-        "level_note": "Partial: text_excludes_marker and range_exact are checked on the implementation only.",
+        "assumptions": ["/.../ regexes cannot match the marker byte (UTF-8 mode of the external regex parser); complements are covered by a theorem"],
+        "level_text": "Theorems: a negated token-range reference denotes exactly the complement within the vocabulary, well formed; a "
+                      "terminal written with the complement operator (variant read from lark/compiler.rs) never matches a word containing "
+                      "the marker byte — so no special token, whatever its name — and is the plain complement on ordinary text; the bare "
+                      "complement is refuted. The rest of the property is evaluated on the implementation at every text / reference position.",
+        "level_note": "Partial: 'a reference allows exactly the tokens it denotes at exactly that position' and the marker-freeness of "
+                      "/.../ regexes are checked on the implementation only.",
     },
     "C03": {
         "runner": "RunEngine",
